@@ -37,6 +37,8 @@ type exec struct {
 	seen bool // the datagram handed to the relay contained the end-to-end plaintext
 	// stage0 is X's stage-0 handshake packet for A exactly as X handed it to the relay during setup
 	stage0 []byte
+	// stage0B is B's stage-0 handshake packet for A (direct tunnel, A is the responder)
+	stage0B []byte
 }
 
 func (e *exec) nameOfHost(n *relaynet.Node, h nebula.VerifHostInfo) string {
@@ -177,6 +179,16 @@ func (e *exec) produce(kind string) (pkt []byte, rx int, sender int, ok bool) {
 		B.SendMessageToIndex(header.Control, 0, B.PrimaryIndex(A.Vpn), b)
 		p, ok := last()
 		return p, nA, nB, ok
+	case "rclose":
+		// X closes its end-to-end tunnel with A: the CloseTunnel travels X -> R -> A inside relay frames
+		X.SendCloseTunnel(X.PrimaryIndex(A.Vpn))
+		p, ok := last()
+		if !ok {
+			return nil, 0, 0, false
+		}
+		net.Nodes[nR].Inject(X.Udp, p)
+		p, ok = last()
+		return p, nA, nR, ok
 	case "rmsg", "fwd":
 		// X -> (R) -> A: the datagram X emits is addressed to R
 		plain := relaynet.IPv4Packet(X.Vpn, A.Vpn, 1000, 2000, []byte("ping-through-relay"))
@@ -289,8 +301,23 @@ func newExec(t *testing.T) func([]string) string {
 				e.net.Close()
 			}
 			base := uint32(hlib.Atou(a[1]))
+			// optional 4th argument: A's preferred_ranges — none | relay (R's underlay address) |
+			// peer (B's underlay address) | other (the roaming address 198.51.100.0/24) | all
+			var pref []string
+			if len(a) > 4 {
+				switch a[4] {
+				case "relay":
+					pref = []string{"192.0.2.3/32"}
+				case "peer":
+					pref = []string{"192.0.2.2/32"}
+				case "other":
+					pref = []string{"198.51.100.0/24"}
+				case "all":
+					pref = []string{"192.0.2.0/24", "198.51.100.0/24"}
+				}
+			}
 			specs := []relaynet.NodeSpec{
-				{UseRelays: true, AmLighthouse: false, AcceptRecvError: a[2], SendRecvError: a[3]},
+				{UseRelays: true, AmLighthouse: false, AcceptRecvError: a[2], SendRecvError: a[3], PreferredRanges: pref},
 				{UseRelays: true, AcceptRecvError: "never", SendRecvError: "never"},
 				{AmRelay: true, AcceptRecvError: "never", SendRecvError: "never"},
 				{UseRelays: true, AcceptRecvError: "never", SendRecvError: "never"},
@@ -300,7 +327,20 @@ func newExec(t *testing.T) func([]string) string {
 				panic(err)
 			}
 			e.net = net
-			net.Handshake(nA, nB)
+			// B initiates the direct tunnel with A (A is the responder and keeps B's stage-0 packet)
+			{
+				Bn, An := net.Nodes[nB], net.Nodes[nA]
+				Bn.InjectLightHouseAddr(An.Vpn, An.Udp)
+				Bn.StartHandshake(An.Vpn)
+				e.stage0B = nil
+				for _, w := range net.Queue {
+					var h header.H
+					if w.From == Bn.Udp && w.To == An.Udp && h.Parse(w.Data) == nil && h.Type == header.Handshake && h.MessageCounter == 1 {
+						e.stage0B = append([]byte{}, w.Data...)
+					}
+				}
+				net.Pump(16)
+			}
 			net.Handshake(nA, nR)
 			net.Handshake(nX, nR)
 			X, A, R := net.Nodes[nX], net.Nodes[nA], net.Nodes[nR]
@@ -322,7 +362,8 @@ func newExec(t *testing.T) func([]string) string {
 			}
 			net.Pump(64)
 			net.Take()
-			ok := A.PrimaryIndex(X.Vpn) != 0 && X.PrimaryIndex(A.Vpn) != 0 && len(e.stage0) > 0
+			ok := A.PrimaryIndex(X.Vpn) != 0 && X.PrimaryIndex(A.Vpn) != 0 && len(e.stage0) > 0 &&
+				A.PrimaryIndex(net.Nodes[nB].Vpn) != 0 && len(e.stage0B) > 0
 			// handshake completion through a relay must leave the endpoint's hostinfo without a direct remote
 			return "ok " + hlib.B(ok) + " xr=" + hlib.B(e.xRemote())
 		case "pkt":
@@ -336,7 +377,7 @@ func newExec(t *testing.T) func([]string) string {
 				return "no-packet"
 			}
 			from := e.src(src, sender)
-			if scope == "lie" && (kind == "rmsg") {
+			if scope == "lie" && (kind == "rmsg" || kind == "rclose") {
 				// the relay R rewrites the relayed payload and seals it again with its own tunnel key
 				if len(pkt) < 48 {
 					return "no-packet"
@@ -387,9 +428,26 @@ func newExec(t *testing.T) func([]string) string {
 				return "bad-op"
 			}
 			R, A, X := e.net.Nodes[nR], e.net.Nodes[nA], e.net.Nodes[nX]
+			// optional 3rd argument: whose stage-0 packet — X (relay-only tunnel, default) | B (direct tunnel)
+			who := "X"
+			if len(a) > 3 {
+				who = a[3]
+			}
 			inner := append([]byte{}, e.stage0...)
+			if who == "B" {
+				if A.PrimaryIndex(e.net.Nodes[nB].Vpn) == 0 {
+					return "no-tunnel" // a replayed stage-0 would build a new tunnel (C10's subject)
+				}
+				inner = append([]byte{}, e.stage0B...)
+			}
 			if a[2] == "flip" {
 				inner[len(inner)/2] ^= 0x10
+			}
+			if a[2] == "direct" {
+				// the same packet arriving bare (not through a relay) from the given source address
+				// (the lighthouse cache learns the source address of a direct handshake: not compared)
+				ans := e.observe(nA, e.src(a[1], nB), inner) + " seen=0 xr=" + hlib.B(e.xRemote())
+				return strings.NewReplacer(" lh=0", " lh=x", " lh=1", " lh=x").Replace(ans)
 			}
 			var ridx uint32
 			for _, hi := range R.State().Hosts {
@@ -424,7 +482,7 @@ func newExec(t *testing.T) func([]string) string {
 	}
 }
 
-var kinds = []string{"msg", "msg", "testreq", "testrep", "ctrl", "rmsg", "rmsg", "fwd", "close"}
+var kinds = []string{"msg", "msg", "testreq", "testrep", "ctrl", "rmsg", "rmsg", "fwd", "close", "rclose"}
 var idxSyms = []string{"B", "R", "X", "rB", "relay", "zero", "unknown"}
 
 func genMut(r *hlib.Rand) string {
@@ -456,13 +514,17 @@ func genMut(r *hlib.Rand) string {
 func gen(r *hlib.Rand, n int, tier, profile string, emit func(string, ...any)) {
 	ops := 0
 	for ops < n {
-		emit("reset %d %s %s", hlib.Pick(r, 100, 5000, 70000), hlib.Pick(r, "always", "always", "never"), hlib.Pick(r, "always", "always", "never"))
+		emit("reset %d %s %s %s", hlib.Pick(r, 100, 5000, 70000), hlib.Pick(r, "always", "always", "never"), hlib.Pick(r, "always", "always", "never"),
+			hlib.Pick(r, "none", "relay", "relay", "peer", "other", "all"))
 		ops++
 		steps := r.Range(15, 60)
 		for k := 0; k < steps; k++ {
 			kind := hlib.Pick(r, kinds...)
 			if kind == "close" && !r.Chance(1, 8) {
 				kind = "msg"
+			}
+			if kind == "rclose" && !r.Chance(1, 5) {
+				kind = "rmsg"
 			}
 			if profile == "C15" && r.Chance(2, 3) {
 				kind = hlib.Pick(r, "rmsg", "rmsg", "fwd")
@@ -472,8 +534,10 @@ func gen(r *hlib.Rand, n int, tier, profile string, emit func(string, ...any)) {
 			// and A's own traffic for X, which must stay inside the relay tunnel
 			if y := r.Intn(100); y < 8 || (profile == "C15" && y < 22) {
 				switch r.Intn(5) {
-				case 0, 1:
-					emit("hsdup %s %s", hlib.Pick(r, "own", "own", "other", "mynet"), hlib.Pick(r, "relay", "relay", "relay", "flip"))
+				case 0:
+					emit("hsdup %s %s X", hlib.Pick(r, "own", "own", "other", "mynet"), hlib.Pick(r, "relay", "relay", "relay", "flip"))
+				case 1:
+					emit("hsdup %s %s B", hlib.Pick(r, "own", "own", "other", "mynet"), hlib.Pick(r, "relay", "relay", "relay", "flip", "direct", "direct"))
 				default:
 					emit("reply")
 				}
